@@ -451,6 +451,127 @@ def rule_V7(ctx: Ctx) -> None:
               "maximum degree: 2 at corners, +1 for every axis along which the cell is interior")
 
 
+def _query_deviations(ac, shape, es, limit=3, which=None, component_once=False):
+    """interpret the graph queries of LatticeMaze on one abstract maze and compare each answer with the edge set (sa.absmaze oracles);
+    returns (number of interpreted calls, deviations, undecided)"""
+    from sa import absmaze as AM
+    from sa.absnp import Arr
+    from sa.fold import EvalRaised, Unknown
+
+    me = AM.maze_obj(shape, es)
+    adj = AM.adjacency(es)
+    cells = AM.cells(shape)
+    bad: list = []
+    unk: list = []
+    n = 0
+
+    def run(name, args, want, show=None, conv=lambda v: v):
+        nonlocal n
+        if unk or (which is not None and name not in which):
+            return
+        n += 1
+        try:
+            got = conv(ac.call(me, name, args))
+        except EvalRaised as e:
+            got = f"raises {e.exc_name}"
+        except Unknown as e:
+            unk.append(f"{name}: {e}"[:160])
+            return
+        except Exception as e:   # a conversion of an unexpected result shape
+            got = f"unexpected result ({type(e).__name__})"
+        if got != want and len(bad) < limit:
+            bad.append({"grid": list(shape), "edges": sorted(es), "query": f"{name}({show if show is not None else ''})", "found": repr(got)[:100], "expected": repr(want)[:100]})
+    for a in cells:
+        for b in cells:
+            want = (a, b) in es or (b, a) in es
+            run("nodes_connected", [AM.coord(a), AM.coord(b)], want, f"{a}, {b}", conv=lambda v: bool(v) if isinstance(v, (bool, int)) else v)
+        run("get_coord_neighbors", [AM.coord(a)], sorted(adj.get(a, ())), f"{a}", conv=lambda v: sorted(AM.as_cells(v)))
+        comp = sorted(AM.bfs(es, a))
+        run("gen_connected_component_from", [AM.coord(a)], comp, f"{a}", conv=(lambda v: sorted(AM.as_cells(v))) if component_once else (lambda v: sorted(set(AM.as_cells(v)))))
+    run("coord_degrees", [], [[len(adj.get((i, j), ())) for j in range(shape[1])] for i in range(shape[0])], conv=lambda v: v.data if isinstance(v, Arr) else v)
+    run("get_nodes", [], cells, conv=lambda v: sorted(AM.as_cells(v)))
+    run("as_adj_list", [False, False], sorted(tuple(sorted(e)) for e in es), "False, False", conv=lambda v: sorted(tuple(sorted(map(tuple, pair))) for pair in (v.data if isinstance(v, Arr) else v)))
+    # candidate paths: empty, single cells, every ordered pair, walks of three cells, cells outside the grid
+    r, c = shape
+    paths = [([], None)] + [([a], True) for a in cells[:2]]
+    for a in cells:
+        for b in cells:
+            paths.append(([a, b], (a, b) in es or (b, a) in es))
+    for a in cells:
+        for b in sorted(adj.get(a, ())):
+            for d in cells[:4]:
+                paths.append(([a, b, d], (b, d) in es or (d, b) in es))
+    outside = [(-1, 0), (0, -1), (r, 0), (0, c), (r - 1, c), (r, c - 1)]
+    for o in outside:
+        paths.append(([o, (0, 0)], False))
+        paths.append(([(r - 1, c - 1), o], False))
+        paths.append(([o], False))
+    for pth, want in paths:
+        if not pth:
+            run("is_valid_path", [Arr([]), True], True, "[], empty_is_valid=True")
+            run("is_valid_path", [Arr([]), False], False, "[], empty_is_valid=False")
+            continue
+        run("is_valid_path", [Arr([list(x) for x in pth])], want, f"{pth}", conv=lambda v: bool(v) if isinstance(v, (bool, int)) else v)
+    return n, bad, unk
+
+
+def neighbour_queries_rule(rule_id: str, supersedes: list[str], whole_rules: list[str], component_once: bool = False):
+    """for properties that rely on the neighbour / component queries (C02 solver expansion, C03 endpoint sampling): the same bounded
+    semantic check restricted to nodes_connected / get_coord_neighbors / gen_connected_component_from, superseding their structural re-judgements"""
+    def run(ctx: Ctx) -> None:
+        from sa import absmaze as AM
+        from sa.absnp import MODELS
+        from sa.absobj import AbstractClass
+
+        graphs = list(AM.all_graphs(2, 2)) + list(AM.all_graphs(2, 3)) + list(AM.all_graphs(3, 2)) + AM.sampled_graphs(3, 3, 48 if ctx.tier != "thorough" else 600)
+        ac = AbstractClass(ctx.index, f"{LM}.LatticeMaze", extra_calls=MODELS, max_steps=60_000)
+        which = {"nodes_connected", "get_coord_neighbors", "gen_connected_component_from"}
+        res = AM.parallel_map(lambda g: _query_deviations(ac, g[0], g[1], which=which, component_once=component_once), graphs)
+        n_calls = sum(r[0] for r in res)
+        bad = [b for r in res for b in r[1]]
+        unk = [u for r in res for u in r[2]]
+        c = ctx.index.cls(f"{LM}.LatticeMaze")
+        ctx.judge(c, False if bad else None if unk else True, {"abstract_mazes": len(graphs), "interpreted_queries": n_calls, "deviations": bad[:3], "undecided": unk[:2]},
+                  "on every abstract maze, nodes_connected, get_coord_neighbors and gen_connected_component_from answer exactly what the edge set says"
+                  + (" (each reachable cell listed exactly once)" if component_once else ""),
+                  "the neighbour / component query describes another graph than the connection structure")
+        if not bad and not unk:
+            q = f"{LM}.LatticeMaze."
+            ctx.cover([q + n_ for n_ in sorted(which)], by=ctx.current_rule, supersedes=sorted({*supersedes, ctx.current_rule}), whole_rules=whole_rules,
+                      bound=f"{len(graphs)} abstract mazes (every edge set of 2x2, 2x3, 3x2; sampled 3x3), {n_calls} interpreted queries")
+    return run
+
+
+def rule_V8(ctx: Ctx) -> None:
+    """bounded semantic check (E15): the graph queries are interpreted on abstract mazes - every edge set of the 2x2 grid, of the 2x3 and of the 3x2 grid (oblong both ways)
+    and a structured sample on 3x3 (thorough tier: every edge set of 3x3 as well, and samples on 2x4 / 4x2 / 4x3 / 3x4) - and each answer is compared with the edge set itself"""
+    from sa import absmaze as AM
+    from sa.absnp import MODELS
+    from sa.absobj import AbstractClass
+
+    thorough = ctx.tier == "thorough"
+    graphs = list(AM.all_graphs(2, 2)) + list(AM.all_graphs(2, 3)) + list(AM.all_graphs(3, 2))
+    if thorough:
+        graphs += list(AM.all_graphs(3, 3)) + AM.sampled_graphs(2, 4, 120) + AM.sampled_graphs(4, 2, 120) + AM.sampled_graphs(4, 3, 120) + AM.sampled_graphs(3, 4, 120)
+    else:
+        graphs += AM.sampled_graphs(3, 3, 48)
+    ac = AbstractClass(ctx.index, f"{LM}.LatticeMaze", extra_calls=MODELS, max_steps=60_000)
+    res = AM.parallel_map(lambda g: _query_deviations(ac, g[0], g[1]), graphs)
+    n_calls = sum(r[0] for r in res)
+    bad = [b for r in res for b in r[1]]
+    unk = [u for r in res for u in r[2]]
+    c = ctx.index.cls(f"{LM}.LatticeMaze")
+    ctx.judge(c, False if bad else None if unk else True, {"abstract_mazes": len(graphs), "interpreted_queries": n_calls, "deviations": bad[:3], "undecided": unk[:2]},
+              "on every abstract maze: nodes_connected (all ordered cell pairs), get_coord_neighbors, gen_connected_component_from, coord_degrees, get_nodes, as_adj_list and "
+              "is_valid_path (empty, single, all pairs, three-cell walks, cells outside the grid) answer exactly what the edge set says",
+              "a query describes another graph than the connection structure (a direction, a boundary, the lesser-endpoint rule or adjacency test is off)")
+    if not bad and not unk:
+        q = f"{LM}.LatticeMaze."
+        ctx.cover([q + n_ for n_ in ("nodes_connected", "get_coord_neighbors", "gen_connected_component_from", "coord_degrees", "get_nodes", "is_valid_path")],
+                  by="C13.V8", supersedes=["C13.V1", "C13.V2", "C13.V3", "C13.V6"], whole_rules=["C13.V2", "C13.V3", "C13.V6"],
+                  bound=f"{len(graphs)} abstract mazes (every edge set of 2x2, 2x3, 3x2{', 3x3' if thorough else ''}; samples beyond), {n_calls} interpreted queries")
+
+
 RULES = [
     Rule("C13.V1", rule_V1, floor=9, doc="one convention, site by site"),
     Rule("C13.V2", rule_V2, floor=3, doc="neighbours and component expansion"),
@@ -459,6 +580,7 @@ RULES = [
     Rule("C13.V5", rule_V5, floor=2, doc="adjacency list once per edge"),
     Rule("C13.V6", rule_V6, floor=1, doc="node list"),
     Rule("C13.V7", rule_V7, floor=2, doc="manhattan_distance and lattice_max_degrees"),
+    Rule("C13.V8", rule_V8, floor=1, doc="bounded semantic check: graph queries interpreted on abstract mazes vs the edge set"),
 ]
 
 from sa import dims as _dims  # noqa: E402
@@ -475,3 +597,8 @@ from sa import exits as _exits_ms  # noqa: E402
 
 RULES.append(Rule("C13.MS", _exits_ms.make_state_rule("C13", "C13.MS", _exits_ms.SCOPES.get("C13", [])), floor=1,
                   doc="no hidden module-level state on the anchored path: results do not depend on the history of the process (E17)"))
+
+from sa import exits as _exits_nw  # noqa: E402
+
+RULES.append(Rule("C13.NW", _exits_nw.make_narrowing_rule("C13", "C13.NW", _exits_nw.SCOPES.get("C13", [])), floor=1,
+                  doc="no new narrowing cast (8/16-bit element types) on the anchored path: coordinates, lengths and indices do not wrap (E18)"))
